@@ -208,11 +208,9 @@ Proof.
   rewrite !lookup_from_app.
   set (W1 := map _ (seq 0 (mu - p))).
   set (W3 := map _ (seq mu (n + 1 - mu))).
-  change (flat_map _ (seq (mu - p) p)) with
-    (flat_map (fun i => [ ((i mod (n + 1))%nat, (i mod n)%nat, a_entry k p x i);
-                          (((i + 1) mod (n + 1))%nat, (i mod n)%nat, b_entry k p x i) ]) (seq (mu - p) p)).
-  set (ga := fun i : nat => ((i mod (n + 1))%nat, (i mod n)%nat, a_entry k p x i)).
-  set (gb := fun i : nat => (((i + 1) mod (n + 1))%nat, (i mod n)%nat, b_entry k p x i)).
+  pose (ga := fun i : nat => ((i mod (n + 1))%nat, (i mod n)%nat, a_entry k p x i)).
+  pose (gb := fun i : nat => (((i + 1) mod (n + 1))%nat, (i mod n)%nat, b_entry k p x i)).
+  change (flat_map _ (seq (mu - p) p)) with (flat_map (fun i => [ga i; gb i]) (seq (mu - p) p)).
   (* loop 1 *)
   assert (L1 : lookup_from 0 W1 r c = z1 r c).
   { unfold z1. destruct (Nat.ltb_spec c (mu - p)) as [A|A]; cbn [andb].
